@@ -32,7 +32,13 @@ type Gen struct {
 	Tag       string
 	TagInt    int64
 	HasTagInt bool
+	// HugeNext makes the next generated string HugeLen bytes long (one large
+	// JSON body per operation: limits on the decoder side would cut it).
+	HugeNext bool
+	HugeBody bool // set by the caller: arm HugeNext when the JSON body is filled
 }
+
+const HugeLen = 1<<20 + 1<<19
 
 var timeType = reflect.TypeOf(time.Time{})
 var rawType = reflect.TypeOf(json.RawMessage{})
@@ -42,6 +48,10 @@ var boundaryStrings = []string{"", "a", "hello world", "quote\"inside", "back\\s
 func (g *Gen) str() string {
 	if g.Tag != "" {
 		return g.Tag
+	}
+	if g.HugeNext {
+		g.HugeNext = false
+		return strings.Repeat("0123456789abcdef", HugeLen/16)
 	}
 	if g.Rng.Intn(3) == 0 {
 		return boundaryStrings[g.Rng.Intn(len(boundaryStrings))]
